@@ -9,7 +9,7 @@
 (*                                                                         *)
 (* Every clause yields [c |-> id, ok |-> holds, nv |-> antecedent held]    *)
 (***************************************************************************)
-EXTENDS Prov, FS, IO, SpecJson
+EXTENDS Prov, FS, IO, SpecXml
 
 Cl(id, nv, ok) == [c |-> id, ok |-> (~nv) \/ ok, nv |-> nv]
 
@@ -523,8 +523,18 @@ C10_wf_json(step) ==
 C10_read_json(step) ==
   Cl("C10_read_json", IsRT(step, "json") /\ step.stage \in {"read", "done"} /\ WfJSON(step.ast),
      ReadBagEq(SpecReadJSON(step.ast), step.src))
+C02_noexc(step) == Cl("C02_noexc", IsRT(step, "xml"), step.exc = "none")
+C02_rt(step) ==
+  Cl("C02_rt", IsRT(step, "xml") /\ step.exc = "none", DocBagEq(step.back, step.src))
+C10_wf_xml(step) ==
+  Cl("C10_wf_xml", IsRT(step, "xml") /\ step.stage \in {"read", "done"}, WfXML(step.ast))
+C10_read_xml(step) ==
+  Cl("C10_read_xml", IsRT(step, "xml") /\ step.stage \in {"read", "done"} /\ WfXML(step.ast),
+     ReadBagEq(SpecReadXML(step.ast), step.src))
+C02Clauses(step) == IF IsRT(step, "xml") THEN {C02_noexc(step), C02_rt(step)} ELSE {}
 C01Clauses(step) == IF IsRT(step, "json") THEN {C01_noexc(step), C01_rt(step)} ELSE {}
-C10Clauses(step) == IF IsRT(step, "json") THEN {C10_wf_json(step), C10_read_json(step)} ELSE {}
+C10Clauses(step) == IF IsRT(step, "json") THEN {C10_wf_json(step), C10_read_json(step)}
+                    ELSE IF IsRT(step, "xml") THEN {C10_wf_xml(step), C10_read_xml(step)} ELSE {}
 
 -----------------------------------------------------------------------------
 (* Conformance (drift) clauses: the model's post-state against the logged   *)
